@@ -34,6 +34,7 @@ def loadOne (w : World) (relpath : Str) (verifyEntry : Option Entry) : Except Er
   | none => throw .abstain
   | some .absent => throw (.os .ENOENT)
   | some .notdir => throw (.os .ENOTDIR)
+  | some (.fault k) => throw (.os (.code k))
   | some (.dir _ _ _) => throw (.os .EISDIR)
   | some (.special _) => throw .abstain
   | some (.file m) =>
